@@ -1,28 +1,71 @@
-(* C13 (3): Fourier1 per-direction factor f1s n enclosed by interval arithmetic, n in [16, 24, 25]
+(* C13 (3): Fourier1 per-direction factor f1s n enclosed by interval arithmetic on its closed form, n in [8, 9, 24, 25, 40, 41, 56, 57]
    (file generated once by a script, split for parallel compilation; independent of /repo). *)
-From Coq Require Import ZArith List Reals Lra.
+From Coq Require Import ZArith List Lia Reals Lra.
 From Interval Require Import Tactic.
 From Flocq Require Import Raux.
-From P Require Import C13_gen C13_model C13_proofs_weights.
+From P Require Import C13_gen C13_model C13_proofs_weights C13_proofs_f1c.
 Open Scope R_scope.
 
-Lemma f1s_bound_16 : 1 - / IZR 16 <= f1s 16 <= 1.
+Lemma f1s_bound_8 : 1 - / IZR 8 <= f1s 8 <= 1.
 Proof.
-  assert (H : Rabs (f1s 16 - (1 - / IZR 16 / 2)) <= / IZR 16 / 2).
-  { unfold f1s, fourier1_dir, sumR. ev. interval. }
+  rewrite f1s_closed_form by (clear; lia).
+  assert (H : Rabs (f1s_closed 8 - (1 - / IZR 8 / 2)) <= / IZR 8 / 2).
+  { unfold f1s_closed, f1_term, sumR. ev. interval. }
+  apply Rabs_le_inv in H. lra.
+Qed.
+
+Lemma f1s_bound_9 : 1 - / IZR 9 <= f1s 9 <= 1.
+Proof.
+  rewrite f1s_closed_form by (clear; lia).
+  assert (H : Rabs (f1s_closed 9 - (1 - / IZR 9 / 2)) <= / IZR 9 / 2).
+  { unfold f1s_closed, f1_term, sumR. ev. interval. }
   apply Rabs_le_inv in H. lra.
 Qed.
 
 Lemma f1s_bound_24 : 1 - / IZR 24 <= f1s 24 <= 1.
 Proof.
-  assert (H : Rabs (f1s 24 - (1 - / IZR 24 / 2)) <= / IZR 24 / 2).
-  { unfold f1s, fourier1_dir, sumR. ev. interval. }
+  rewrite f1s_closed_form by (clear; lia).
+  assert (H : Rabs (f1s_closed 24 - (1 - / IZR 24 / 2)) <= / IZR 24 / 2).
+  { unfold f1s_closed, f1_term, sumR. ev. interval. }
   apply Rabs_le_inv in H. lra.
 Qed.
 
 Lemma f1s_bound_25 : 1 - / IZR 25 <= f1s 25 <= 1.
 Proof.
-  assert (H : Rabs (f1s 25 - (1 - / IZR 25 / 2)) <= / IZR 25 / 2).
-  { unfold f1s, fourier1_dir, sumR. ev. interval. }
+  rewrite f1s_closed_form by (clear; lia).
+  assert (H : Rabs (f1s_closed 25 - (1 - / IZR 25 / 2)) <= / IZR 25 / 2).
+  { unfold f1s_closed, f1_term, sumR. ev. interval. }
+  apply Rabs_le_inv in H. lra.
+Qed.
+
+Lemma f1s_bound_40 : 1 - / IZR 40 <= f1s 40 <= 1.
+Proof.
+  rewrite f1s_closed_form by (clear; lia).
+  assert (H : Rabs (f1s_closed 40 - (1 - / IZR 40 / 2)) <= / IZR 40 / 2).
+  { unfold f1s_closed, f1_term, sumR. ev. interval. }
+  apply Rabs_le_inv in H. lra.
+Qed.
+
+Lemma f1s_bound_41 : 1 - / IZR 41 <= f1s 41 <= 1.
+Proof.
+  rewrite f1s_closed_form by (clear; lia).
+  assert (H : Rabs (f1s_closed 41 - (1 - / IZR 41 / 2)) <= / IZR 41 / 2).
+  { unfold f1s_closed, f1_term, sumR. ev. interval. }
+  apply Rabs_le_inv in H. lra.
+Qed.
+
+Lemma f1s_bound_56 : 1 - / IZR 56 <= f1s 56 <= 1.
+Proof.
+  rewrite f1s_closed_form by (clear; lia).
+  assert (H : Rabs (f1s_closed 56 - (1 - / IZR 56 / 2)) <= / IZR 56 / 2).
+  { unfold f1s_closed, f1_term, sumR. ev. interval. }
+  apply Rabs_le_inv in H. lra.
+Qed.
+
+Lemma f1s_bound_57 : 1 - / IZR 57 <= f1s 57 <= 1.
+Proof.
+  rewrite f1s_closed_form by (clear; lia).
+  assert (H : Rabs (f1s_closed 57 - (1 - / IZR 57 / 2)) <= / IZR 57 / 2).
+  { unfold f1s_closed, f1_term, sumR. ev. interval. }
   apply Rabs_le_inv in H. lra.
 Qed.
